@@ -102,7 +102,7 @@ def gen(rng, tier, shape=None):
     return {"black": opts, "funs": funs, "flags": flags, "docstring": rng.random() < 0.3, "future": rng.random() < 0.25,
             "extra_import": rng.random() < 0.4, "clean": rng.random() < 0.4, "fmt_cmd": rng.random() < 0.1,
             "trailer": rng.choice(["", "\n# done ✓\n", "\nif __name__ == '__main__':\n    pass\n"]),
-            "final_newline": rng.random() < 0.9, "crlf": rng.random() < 0.06, "padded_str": rng.random() < 0.3}
+            "final_newline": rng.random() < 0.9, "crlf": rng.random() < 0.06, "padded_str": rng.random() < 0.3, "with_stmt": rng.random() < 0.25}
 
 
 def render(case):
@@ -121,6 +121,11 @@ def render(case):
     L.append("")
     L.append("class NoRepr:\n    def __init__(self, i): self.i = i\n    def __repr__(self): return f'<NoRepr {self.i}>'\n    def __eq__(self, o): return (o.i == self.i) if isinstance(o, NoRepr) else NotImplemented\n")
     L.append("def check(s, v):\n    assert v == s\n")
+    if case.get("with_stmt"):
+        # a statement whose layout depends on black's target version (parenthesised context managers need 3.9+):
+        # black has to decide it the way the project's own `black` run does
+        L.append("from unittest import mock\n\n\ndef two_managers():\n    with mock.patch(\"os.getcwd\", return_value=\"/somewhere/else\") as first_manager, mock.patch(\"os.getpid\", return_value=4242) as second_manager:\n"
+                 "        return first_manager, second_manager\n")
     for k, f in enumerate(case["funs"]):
         ind = "\t" if f["tabs"] else "    "
         L.append(f"def test_{k}():")
